@@ -259,6 +259,13 @@ def array_binop(op, a, b, lineno=None):
         return elementwise(lambda x, y: scalar_binop(op, B(x), B(y), lineno), a, b, "bool", lineno)
     if op in ("BitAnd", "RShift") and not is_arr(b):
         return elementwise(lambda x, y: _bit_noassert(op, x, y), a, b, "int", lineno)
+    u8 = getattr(a, "dtype", None) == "uint8" or getattr(b, "dtype", None) == "uint8"
+    if u8 and op in ("Add", "Sub", "Mult") and all(is_arr(x) or isinstance(x, int) for x in (a, b)):
+        # NumPy (NEP 50): uint8 array op python-int / uint8 array stays uint8 and wraps modulo 256
+        use("uint8 array arithmetic wraps modulo 256")
+        r = elementwise(lambda x, y: _divmod_noassert(scalar_binop(op, x, y, lineno), 256)[1], a, b, "int", lineno)
+        r.dtype = "uint8"
+        return r
     r = elementwise(lambda x, y: scalar_binop(op, x, y, lineno), a, b, "int", lineno)
     if op in ("Add", "Sub") and isinstance(a, SArr) and not is_arr(b) and isinstance(r, SArr):
         r.linear_of = (a.snapshot(), b if op == "Add" else scalar_binop("Sub", 0, b))
